@@ -135,10 +135,13 @@ impl HybridTimestamp {
 
     pub fn increment(self) -> Self {
         let timestamp = Timestamp::now();
-        if timestamp == self.0 {
-            Self(timestamp, self.1.increment())
-        } else {
+        if timestamp > self.0 {
             Self(timestamp, LamportTimestamp::default())
+        } else {
+            // The wall clock did not advance or even went backwards (clock adjustments, etc.).
+            // Keep the previous time and increment the logical clock instead, to guarantee that
+            // the returned timestamp is always larger than the current one.
+            Self(self.0, self.1.increment())
         }
     }
 
